@@ -323,6 +323,61 @@ def replay_c19(state):
     return obs
 
 
+def _annot_obs(st):
+    """real annotation of the parsed element (as a required property) as a type expression"""
+    from statham.schema.property import Property
+    if not st["ok"]:
+        return None
+    sj = codec.schema_to_json(st["doc"])
+    kind, el = drive.parse_labelled(sj)
+    if kind != "ok":
+        return None
+    try:
+        text = Property(el, required=True).annotation
+        ty = _type_expr(ast.parse(text, mode="eval").body)
+    except Exception as exc:  # noqa
+        return {"err": type(exc).__name__}
+    cause = "other"
+    try:
+        from statham.schema.elements import AllOf
+        for sub in drive.walk_elements(el):
+            if isinstance(sub, AllOf) and sub.annotation != sub.elements[0].annotation:
+                cause = "allof-annotation-is-not-its-first-member's"
+    except Exception:  # noqa
+        pass
+    return {"ty": ty, "text": text, "cause": cause}
+
+
+def _anon(ty):
+    """type expression with class names blanked (the model names classes before de-duplication)"""
+    return {"t": ty["t"], "a": [_anon(a) for a in ty["a"]], "n": "*" if ty["t"] == "Class" else ""}
+
+
+def annotation_model_part(rep, tier):
+    """MC_Ser: TLC checks HasType(value, AnnotOf(element)) for every value the MODEL element
+    builds; the real annotation is compared with the model's (equal => TLC's verdict stands)."""
+    lines, meta = df._cached_tlc("ser-bfs", df._cfg(df.TIERS[tier]["bfs"], False), module="MC_Ser")
+    seeds, smeta = df._cached_tlc("ser-seed", df._cfg(df.TIERS[tier]["seed"], False, "SeedSpec",
+                                                       df.TIERS[tier]["seed_levels"]), module="MC_Ser")
+    states = lines + seeds
+    obs = drive.pmap(_annot_obs, states, chunksize=64)
+    drift = flagged = 0
+    for st, ob in zip(states, obs):
+        if not ob or "err" in ob:
+            continue
+        if ob["ty"] != st["annot"]:
+            drift += 1
+            continue
+        if st["m19"]:
+            flagged += 1
+            rep.violation(("C19", "value-not-of-annotated-type", ob["cause"]),
+                          f"(design level, real annotation equals the model's) schema "
+                          f"{json.dumps(codec.schema_to_json(st['doc']))[:200]} is annotated {ob['text']} "
+                          f"but the element builds a value outside that type", dict(state=st))
+    return dict(states=meta["distinct"] + smeta["distinct"], transitions=meta["states"] + smeta["states"],
+                documents=len(states), drift=drift, model_flagged=flagged)
+
+
 # ------------------------------------------------------------------ driver
 def run(pid, tier, replay_file=None):
     t0 = time.time()
@@ -445,6 +500,9 @@ def run(pid, tier, replay_file=None):
                               f"but holds {[_short(x) for x in w['outs'] if True][:6]}",
                               dict(state=st, observed=dict(how=w["how"], annot=w["annot"], reqd=w["reqd"])))
 
+    annmodel = {}
+    if pid == "C19" and not replay_file:
+        annmodel = annotation_model_part(rep, tier)
     bfs, sim, seed = info.get("bfs", {}), info.get("sim", {}), info.get("seed", {})
     if not replay_file and len(nontrivial) < 2:
         raise MachineryError("vacuity: no non-trivial case")
@@ -466,6 +524,11 @@ def run(pid, tier, replay_file=None):
         bounds=dict(bfs=bfs.get("consts"), seeds=seed.get("consts"), simulate=sim.get("consts"), values=len(pyvals)),
         tlc=dict(bfs=bfs, seeds=seed, sim=sim, trace_validation=adj), stats=dict(stats),
         events_adjudicated=min(len(ev_index), MAX_EVENTS), events_total=len(ev_index))
+    if annmodel:
+        coverage["annotation_model"] = annmodel
+        coverage["states"] += annmodel["states"]
+        coverage["transitions"] += annmodel["transitions"]
+        coverage["traces_validated_against_impl"] += annmodel["documents"]
     return rep.finish(coverage, time.time() - t0,
                       assumptions=["A1 bounded exhaustiveness", "A7 Draft6.tla is the reference"])
 
